@@ -24,9 +24,10 @@ RULE = ('one evaluation = one seeded simulated run: either 2-3 clients adding dy
         'satisfy starts(window) <= max(count,1) + rate*length for every window and every call must start, including the calls in which the function raises (the admission is spent, the exception comes out); non-trivial = a context switch '
         '(Averager) / at least one call was delayed (throttle); distinct = SHA-256 of the seam event log')
 RULE += ' ' + 'In a third of the multi-object Averager runs and of the multi-process throttle runs every second object is handed over by a pickle round trip instead of opening the directory.'
+RULE += ' ' + 'In 30 % of the multi-process throttle runs one calling process is killed at a seeded point after decorating; the survivors must make all their calls.'
 ASSUMPTIONS = ['throttle is given time_func/sleep_func bound to the virtual clock (the seam the recipe offers); a virtual sleep lasts at least the requested time plus >= 1 microsecond',
                'Averager values are dyadic rationals so sums are exact in any order']
-PROBES = ('throttle_delayed', 'throttle_calls', 'throttle_raising_calls', 'throttle_across_processes', 'throttle_after_restart', 'avg_pops', 'lock_wait', 'handed_over_by_pickle')
+PROBES = ('throttle_delayed', 'throttle_calls', 'throttle_raising_calls', 'throttle_across_processes', 'throttle_after_restart', 'avg_pops', 'lock_wait', 'handed_over_by_pickle', 'caller_killed')
 TECHNIQUE = 'deterministic simulation: seeded schedules + linearizability against (total,count); virtual-clock arrival patterns with a window-bound oracle over recorded start times'
 LEVEL_TEXT = ('seeded exploration of adder/popper interleavings decided by a linearizability search, and of arrival patterns x rates on '
               'a virtual clock decided by the exact window bound over all pairs of recorded start times plus completion of every call.')
@@ -89,6 +90,11 @@ def gen_case(seed, tier):
     # a restart: after the first callers are done, a new process on the same directory whose clock reads much LOWER (a
     # monotonic clock after a reboot, a device without a battery-backed clock) decorates the function again and calls it
     cfg['reboot'] = rng.random() < 0.15
+    if cfg['procs'] and ncallers >= 2 and rng.random() < 0.3:
+        # one of the calling processes dies (kill -9, out of memory) somewhere inside its calls - possibly in the middle of an
+        # admission: the others are still let through, at the same rate
+        cfg['kill'] = {'i': rng.randrange(ncallers), 'k': rng.randint(1, 150)}
+        cfg['reboot'] = False
     return {'seed': seed, 'cfg': cfg}
 
 
@@ -239,6 +245,9 @@ def run_throttle(case):
                     while len(opened) < len(cfg['arrivals']):
                         sim.sleep(0.001)
                     decorated_at[0] = max(decorated_at[0], sim.now)
+                    if cfg.get('kill') and cfg['kill']['i'] == i:
+                        me = sim.current
+                        sim.faults.append({'f': 'kill', 'proc': me.proc.name, 'task': '-', 'at': me.proc.seams + cfg['kill']['k'], 'torn': 0.5})
                 for j, gap in enumerate(cfg['arrivals'][i]):
                     if gap:
                         sim.sleep(gap)
@@ -298,6 +307,11 @@ def run_throttle(case):
         if cfg.get('procs'):
             probes['throttle_across_processes'] = 1
         total_calls = sum(len(a) for a in cfg['arrivals'])
+        if cfg.get('kill') and any(f.get('done') for f in sim.faults):
+            probes['caller_killed'] = 1
+            vi = cfg['kill']['i']
+            # the dead process owes nothing more; the survivors make all their calls
+            total_calls = sum(len(a) for n, a in enumerate(cfg['arrivals']) if n != vi) + sum(1 for _, who in starts if who == 'c%d' % vi)
         if incident is not None:
             if incident.kind in ('stepcap', 'deadlock'):
                 violations.append({'rule': 'C20/throttle-no-progress', 'sig': incident.kind,
